@@ -9,6 +9,7 @@ import Xc.Prim.Cores
 import Xc.Prim.Des
 import Xc.Prim.Blowfish
 import Xc.Prim.Yescrypt
+import Xc.Prim.Streebog
 
 namespace Xc
 
@@ -26,9 +27,9 @@ def D0 : Digests where
   bf := Bf.bcryptCore
   bfSelfTest := fun _ => true
   yescrypt := fun P salt phrase => if yesKdfParamsOk P then some (Yes.kdf P salt phrase) else none
-  gostOuter := fun _ _ _ => zeros 32
+  gostOuter := Streebog.gostOuter
 
-def exactMethods : List Method := [.md5crypt, .sha256crypt, .sha512crypt, .sunmd5, .sha1crypt, .nt, .descrypt, .bigcrypt, .bsdicrypt, .bcrypt, .bcrypt_a, .bcrypt_x, .bcrypt_y, .yescrypt, .scrypt]
+def exactMethods : List Method := [.md5crypt, .sha256crypt, .sha512crypt, .sunmd5, .sha1crypt, .nt, .descrypt, .bigcrypt, .bsdicrypt, .bcrypt, .bcrypt_a, .bcrypt_x, .bcrypt_y, .yescrypt, .scrypt, .gost_yescrypt]
 
 /-- number of trailing characters of a successful result that depend on the digest -/
 def digestChars (m : Method) (H : Bytes) : Nat :=
